@@ -1138,6 +1138,36 @@ func (in *Interp) symLoad(r0 *SymRef) Value {
 		}
 		count[vals[i]]++
 	}
+	// verified closed form "three packed decimal digits" (jx's digits table): every reachable entry is checked
+	if r.n >= 8 && vals[0].IsConst() && vals[0].w == 32 {
+		f := func(i uint64) uint64 {
+			v := (((i / 100) + '0') << 16) + ((((i / 10) % 10) + '0') << 8) + i%10 + '0'
+			if i < 10 {
+				v += 2 << 24
+			} else if i < 100 {
+				v += 1 << 24
+			}
+			return v
+		}
+		match := r.off+r.n <= 1000
+		for i := 0; match && i < r.n; i++ {
+			if !vals[i].IsConst() || vals[i].val != f(uint64(r.off+i)) {
+				match = false
+			}
+		}
+		if match {
+			in.cs.Summaries["table:packed-3-digits"]++
+			tb := in.tb
+			k := func(v uint64) *Term { return tb.Const(32, v) }
+			abs := tb.Bin(OpAdd, tb.Extract(r.idx, 31, 0), k(uint64(r.off)))
+			d2 := tb.Bin(OpUDiv, abs, k(100))
+			d1 := tb.Bin(OpURem, tb.Bin(OpUDiv, abs, k(10)), k(10))
+			d0 := tb.Bin(OpURem, abs, k(10))
+			v := tb.Bin(OpAdd, tb.Bin(OpAdd, tb.Bin(OpShl, tb.Bin(OpAdd, d2, k('0')), k(16)), tb.Bin(OpShl, tb.Bin(OpAdd, d1, k('0')), k(8))), tb.Bin(OpAdd, d0, k('0')))
+			flag := tb.Ite(tb.Bin(OpULt, abs, k(10)), k(2<<24), tb.Ite(tb.Bin(OpULt, abs, k(100)), k(1<<24), k(0)))
+			return tb.Bin(OpAdd, v, flag)
+		}
+	}
 	// affine segment: table[i] == table[0] + i for every reachable entry (exhaustively checked)
 	if r.n >= 2 && vals[0].IsConst() {
 		w := vals[0].w
